@@ -216,7 +216,7 @@ def _exact_units(world):
                                 part.violation("C01:identity-unit:%s:%s:%s" % (world, qt, info.unit), {"x": x})
                     continue
                 try:
-                    a, b, c, d = dims.coeffs(info)
+                    a, b, c, d = dims.written_coeffs(info)
                     a2, b2, c2, d2 = dims.from_coeffs(info)
                 except dims.NotAffine:
                     part.count("units_without_coefficients")
